@@ -73,7 +73,11 @@ BinOps  == {",", "or", "and"} \cup GeneralComp \cup ValueComp \cup NodeComp \cup
 RootOps == {"root/", "root//"}
 KwOps   == {"if(", "for", "let", "some", "every"}  \* ExprSingle constructs: prefix, with a bracketed first slot
 PreOps  == {"neg", "pos"} \cup RootOps
-TypeOps == {"instance", "treat", "castable", "cast"}   \* postfix, carry their type operand
+TypeOpsPlain == {"instance", "treat", "castable", "cast"}      \* postfix, carry their type operand
+TypeOpsOcc   == {"instance^", "treat^", "castable^", "cast^"}  \* ... whose type has an occurrence indicator
+TypeOps == TypeOpsPlain \cup TypeOpsOcc
+BaseOp(s) == CASE s = "instance^" -> "instance" [] s = "treat^" -> "treat"
+               [] s = "castable^" -> "castable" [] s = "cast^" -> "cast" [] OTHER -> s
 PostOps == TypeOps \cup {"=>", "?"}                      \* single-token postfix operators
 POpens  == {"[", "c("}                                    \* postfix operators with an inner expression
 GOpens  == {"(", "f("}                                    \* primaries with an inner expression
@@ -106,6 +110,7 @@ V20 == V10 \cup ValueComp \cup NodeComp \cup
 V30 == V20 \cup {"||", "!", "c(", "let"}
 V31 == V30 \cup {"=>", "?"}
 
+InVersionOps(v) == IF v = "1.0" THEN {} ELSE TypeOpsPlain
 InVersion(v) == CASE v = "1.0" -> V10 [] v = "2.0" -> V20 [] v = "3.0" -> V30 [] OTHER -> V31
 
 Level(v, s) ==
@@ -122,10 +127,10 @@ Level(v, s) ==
     [] s \in {"*", "div", "idiv", "mod"} -> 70
     [] s \in {"union", "|"} -> 80
     [] s \in {"intersect", "except"} -> 90
-    [] s = "instance" -> 100
-    [] s = "treat"    -> 110
-    [] s = "castable" -> 120
-    [] s = "cast"     -> 130
+    [] BaseOp(s) = "instance" -> 100
+    [] BaseOp(s) = "treat"    -> 110
+    [] BaseOp(s) = "castable" -> 120
+    [] BaseOp(s) = "cast"     -> 130
     [] s = "=>"       -> 140
     [] s \in {"neg", "pos"} -> IF v = "1.0" THEN 75 ELSE 150
     [] s = "!"        -> 160
@@ -149,7 +154,7 @@ Assoc(v, s) ==
 (* (a name, or '$' + name); "?" is rendered "?k", "=>" as "=> f()".         *)
 Words == {"or", "and", "to", "div", "idiv", "mod", "union", "intersect", "except", "is", "then", "else",
           "return", "satisfies", "for", "some", "every"} \cup ValueComp \cup TypeOps
-WordEnd(s)   == s \in Words \cup {"x", "?"}                            \* "for $v in", "some $v in" end with a word
+WordEnd(s)   == s \in (Words \ TypeOpsOcc) \cup {"x", "?"}                            \* "for $v in", "some $v in" end with a word
 WordStart(s) == s \in Words \cup {"x", "neg", "-", "f(", "if(", "let"}
 (* "/" directly followed by a leading "/" would fuse into the token "//" *)
 Fuses(a, b)  == a \in PathOps \cup RootOps /\ b \in RootOps
@@ -160,15 +165,44 @@ NeedSep == {<<a, b>> \in AllTokens \X AllTokens : (WordEnd(a) /\ WordStart(b)) \
 (* nest, and any number of them may follow each other; the sequence must be non-empty  *)
 (* only where NeedSep says so.  Separator items: "sp" "nl" "tab" white space, "c" a    *)
 (* comment, "cn" a comment containing a comment, "c0" a comment without inner spaces.  *)
-SepItems(v) == IF v = "1.0" THEN {"sp", "nl", "tab"} ELSE {"sp", "nl", "tab", "c", "cn", "c0"}
+(* "wsl" a long run of blanks and newlines; "cl" a comment of about 100 characters and "ch" one of about 300,  *)
+(* both with parentheses, colons, quotes and newlines inside: a comment is skipped whatever its length.       *)
+SepItems(v) == IF v = "1.0" THEN {"sp", "nl", "tab", "wsl"}
+               ELSE {"sp", "nl", "tab", "wsl", "c", "cn", "c0", "cl", "ch"}
 GapOK(v, a, b, g) == (\A i \in 1..Len(g) : g[i] \in SepItems(v)) /\ (<<a, b>> \in NeedSep => g # <<>>)
 (* the members of the relation that are replayed: one filler per layout, put into EVERY gap *)
 (* ("min": nothing, or one blank where a separator is needed)                               *)
 Layouts(v) ==
-  IF v = "1.0" THEN [min |-> <<>>, spaced |-> <<"sp">>, wide |-> <<"sp", "nl", "tab", "sp">>]
+  IF v = "1.0" THEN [min |-> <<>>, spaced |-> <<"sp">>, wide |-> <<"sp", "nl", "tab", "sp">>, long |-> <<"wsl">>]
   ELSE [min |-> <<>>, wide |-> <<"sp", "nl", "tab", "sp">>, comment |-> <<"sp", "cn", "sp">>,
-        comments |-> <<"c", "cn", "sp", "c", "nl", "c">>, tightcomment |-> <<"c0">>]
+        comments |-> <<"c", "cn", "sp", "c", "nl", "c">>, long |-> <<"cl", "wsl", "ch">>,
+        tightcomment |-> <<"c0">>]
 LayoutsOK == \A v \in AllVersions : \A n \in DOMAIN Layouts(v) : GapOK(v, "(", "(", Layouts(v)[n])
+
+(* ---- sequence types ------------------------------------------------------ *)
+(* The type operand of the n-th type operator, "(T<n>)" in a tree, is one of the     *)
+(* variants below: an item type name (rendered 1:1 by the harness) and an occurrence  *)
+(* indicator.  XPath 2.0 [50] SequenceType ::= ("empty-sequence" "(" ")") |            *)
+(* (ItemType OccurrenceIndicator?), [49] SingleType ::= AtomicType "?"?; 3.0 adds      *)
+(* function tests and namespace-node(), 3.1 map and array tests.  In the tree the      *)
+(* occurrence indicator is written behind the root symbol of the type:                 *)
+(* element(a)+ is "(element+ (a))", xs:integer? is "(:? (xs) (integer))".              *)
+AtomicTypes == {"xs:integer", "xs:string"}
+ItemTypes(v) ==
+  AtomicTypes \cup {"item()", "node()", "text()", "element()", "element(a)", "element(*)", "element(a,T)",
+                    "attribute()", "attribute(a)", "attribute(*)", "document-node()", "document-node(element(a))",
+                    "comment()", "processing-instruction()", "processing-instruction(p)", "processing-instruction('p')"}
+  \cup (IF v \in {"3.0", "3.1"} THEN {"function(*)", "namespace-node()"} ELSE {})
+  \cup (IF v = "3.1" THEN {"map(*)", "map(K,V)", "array(*)", "array(T)"} ELSE {})
+SeqTypeOK(v, op, ty, oc) ==
+  /\ op \in TypeOps /\ BaseOp(op) \in InVersionOps(v)
+  /\ IF BaseOp(op) \in {"cast", "castable"}
+     THEN ty \in AtomicTypes /\ oc \in (IF op \in TypeOpsOcc THEN {"?"} ELSE {""})
+     ELSE /\ ty \in ItemTypes(v) \cup {"empty-sequence()"} \cup (IF v \in {"3.0", "3.1"} THEN {"function(T) as T"} ELSE {})
+          /\ oc \in (IF op \in TypeOpsOcc THEN {"?", "*", "+"} ELSE {""})
+          /\ ty \in {"empty-sequence()", "function(T) as T"} => oc = ""   \* no indicator of their own
+AllItemTypes == ItemTypes("3.1") \cup {"empty-sequence()", "function(T) as T"}
+SeqTypes == {q \in AllVersions \X TypeOps \X AllItemTypes \X {"", "?", "*", "+"} : SeqTypeOK(q[1], q[2], q[3], q[4])}
 
 (* ---- bracket structure ------------------------------------------------- *)
 RECURSIVE DepthVec(_, _)
@@ -202,7 +236,7 @@ Node1(s, a)    == IF IsErr(a) THEN a ELSE "(" \o Sym(s) \o " " \o a \o ")"
 Node2(s, a, b) == IF IsErr(a) THEN a ELSE IF IsErr(b) THEN b ELSE "(" \o Sym(s) \o " " \o a \o " " \o b \o ")"
 PostNode(t, k, a) ==
   IF IsErr(a) THEN a
-  ELSE CASE t[k] \in TypeOps -> "(" \o t[k] \o " " \o a \o " (T" \o Ord(t, k, TypeOps) \o "))"
+  ELSE CASE t[k] \in TypeOps -> "(" \o BaseOp(t[k]) \o " " \o a \o " (T" \o Ord(t, k, TypeOps) \o "))"
          [] t[k] = "=>"      -> "(=> " \o a \o " (F" \o Ord(t, k, {"=>"}) \o ") ())"
          [] t[k] = "?"       -> "(? " \o a \o " (K" \o Ord(t, k, {"?"}) \o "))"
 CallNode(a, b) == IF IsErr(a) THEN a ELSE IF IsErr(b) THEN b ELSE "(" \o a \o " " \o b \o ")"   \* dynamic call: no symbol
